@@ -120,6 +120,7 @@ type lRun struct {
 	// Coq trace lines per property
 	trace []string
 	c01   *c01Tracer
+	c08   *c08Tracer
 }
 
 func (x *lRun) fail(sig, detail string) {
@@ -644,6 +645,9 @@ func (x *lRun) block(dt int64) bool {
 	if x.c01 != nil {
 		x.c01.step(BankOps(x.w.LastBlockEvents), false, true)
 	}
+	if x.c08 != nil {
+		x.c08.step()
+	}
 	x.invariants(fmt.Sprintf("after block %d", x.w.Height))
 	return true
 }
@@ -669,6 +673,9 @@ func runLedgerHistory(t *testing.T, col *Collector, prop string, h lHist) {
 	}
 	if prop == "C01" {
 		x.c01 = newC01Tracer(x)
+	}
+	if prop == "C08" {
+		x.c08 = newC08Tracer(x)
 	}
 	for k, op := range h.Ops {
 		x.step = k
@@ -702,6 +709,9 @@ func runLedgerHistory(t *testing.T, col *Collector, prop string, h lHist) {
 		if x.c01 != nil {
 			x.c01.step(BankOps(res.Events), op.Op == "donate", false)
 		}
+		if x.c08 != nil {
+			x.c08.step()
+		}
 		col.Op(op.Op, res.Kind(), amt)
 		fmt.Fprintf(&x.fp, "%s:%s;", op.Op, res.Kind())
 		if res.OK() {
@@ -721,6 +731,15 @@ func runLedgerHistory(t *testing.T, col *Collector, prop string, h lHist) {
 		col.mu.Lock()
 		n, _ := col.rep.Extra["levelB_single_swap_blocks"].(int)
 		col.rep.Extra["levelB_single_swap_blocks"] = n + x.c01.swapsB
+		col.mu.Unlock()
+	}
+	if x.c08 != nil {
+		col.Case(h.ID, x.c08.caseText(h.ID))
+		col.mu.Lock()
+		n, _ := col.rep.Extra["position_opens"].(int)
+		col.rep.Extra["position_opens"] = n + x.c08.opens
+		n2, _ := col.rep.Extra["position_closes"].(int)
+		col.rep.Extra["position_closes"] = n2 + x.c08.closes
 		col.mu.Unlock()
 	}
 	col.Distinct(x.fp.String(), x.nontriv)
@@ -762,6 +781,9 @@ func runLedger(t *testing.T, prop string) {
 	switch prop {
 	case "C01":
 		header = "From Coq Require Import ZArith List Bool.\nFrom Elys Require Import Base.Res Base.Fn Models.AmmLedger Run.AmmLedgerRun.\nImport ListNotations.\nOpen Scope Z_scope.\n"
+		footer = "Definition M := Eval vm_compute in mismatches cases.\nPrint M.\n"
+	case "C08":
+		header = "From Coq Require Import ZArith List Bool.\nFrom Elys Require Import Base.Res Base.Fn Models.SumLedger Models.LevLedger Run.LevLedgerRun.\nImport ListNotations.\nOpen Scope Z_scope.\n"
 		footer = "Definition M := Eval vm_compute in mismatches cases.\nPrint M.\n"
 	}
 	col.Finish(t, len(hists), header, footer, 12)
